@@ -47,11 +47,13 @@ func (s *RecStore) Seek(r storage.SeekRange, f func(k, v []byte) bool) {
 func (s *RecStore) PutChangeSet(p, st map[string][]byte) error {
 	if s.Record {
 		b := Batch{Puts: make(map[string][]byte, len(p)+len(st))}
+		// Deep copies: a disk keeps the bytes it was given at write time even
+		// if the node later scribbles over the slices it handed in.
 		for k, v := range p {
-			b.Puts[k] = v
+			b.Puts[k] = cloneVal(v)
 		}
 		for k, v := range st {
-			b.Puts[k] = v
+			b.Puts[k] = cloneVal(v)
 		}
 		s.mu.Lock()
 		s.log = append(s.log, b)
@@ -61,6 +63,13 @@ func (s *RecStore) PutChangeSet(p, st map[string][]byte) error {
 		s.Delay()
 	}
 	return s.Inner.PutChangeSet(p, st)
+}
+
+func cloneVal(v []byte) []byte {
+	if v == nil {
+		return nil
+	}
+	return append(make([]byte, 0, len(v)), v...)
 }
 
 func (s *RecStore) SeekGC(rng storage.SeekRange, keep func(k, v []byte) (bool, bool)) error {
@@ -123,6 +132,7 @@ func Materialize(content map[string][]byte, backend, dir string) (storage.Store,
 	}
 	p, s := map[string][]byte{}, map[string][]byte{}
 	for k, v := range content {
+		v = cloneVal(v) // stores built from one log must not share value memory
 		if k[0] == byte(storage.STStorage) || k[0] == byte(storage.STTempStorage) {
 			s[k] = v
 		} else {
